@@ -317,6 +317,11 @@ func scenHold(e *Env, args []string, r *rand.Rand) {
 			}
 		}
 	}
+	if lg := atoi(m["linger"], 0); lg > 0 {
+		// the remote keeps its side open for a while after the session was expired: corebgp has closed the connection
+		// and told the plugin (OnClose) on its own, not only when it is stopped
+		time.Sleep(time.Duration(lg) * time.Millisecond)
+	}
 	e.close()
 	p.plugin.waitWriters(2 * time.Second)
 }
@@ -720,6 +725,36 @@ func scenShutdown(e *Env, args []string, r *rand.Rand) {
 			c.send(wire.Open(remoteAS, 90, remoteID, tag(c)))
 			p.waitEv(0, stepWait, "cb.enter", "OnOpenMessage")
 			stop(p)
+		}
+	case "in-callback-veto":
+		// the stop arrives while a callback is running that is about to refuse (OnOpenMessage answering with a
+		// NOTIFICATION, or the UPDATE handler): the FSM comes back with an error while the manager is already stopping it
+		p := e.addPeer(1, PeerOpts{LocalAS: localAS, RemoteAS: remoteAS, Hold: 90, Passive: dir == "in"})
+		if m["st"] == "established" {
+			p.plugin.HandlerDelay = 120 * time.Millisecond
+			p.plugin.HandlerVeto = 1
+			p.plugin.VetoNotif = &bgp.Notification{Code: 3, Subcode: 9, Data: []byte{7}}
+		} else {
+			p.plugin.OpenDelay = 120 * time.Millisecond
+			p.plugin.OpenVeto = &bgp.Notification{Code: 2, Subcode: 0}
+		}
+		e.serve()
+		if m["st"] == "established" {
+			c := p.bring(dir, "established", 90, remoteID)
+			if c != nil {
+				c.send(wire.Update([]byte{0, 0, 0, 0}))
+				p.waitEv(0, stepWait, "cb.enter", "handler")
+				time.Sleep(time.Duration(atoi(m["at"], 60)) * time.Millisecond)
+				stop(p)
+			}
+		} else {
+			c := p.bring(dir, "openSent", 90, remoteID)
+			if c != nil {
+				c.send(wire.Open(remoteAS, 90, remoteID, tag(c)))
+				p.waitEv(0, stepWait, "cb.enter", "OnOpenMessage")
+				time.Sleep(time.Duration(atoi(m["at"], 60)) * time.Millisecond)
+				stop(p)
+			}
 		}
 	case "listener-error":
 		// the listener fails under Serve: Serve returns that error after stopping every peer (like Close)
@@ -1186,6 +1221,10 @@ func scenAdmission(e *Env, args []string, r *rand.Rand) {
 	if withLocal {
 		lo = "127.0.0.1"
 	}
+	if strings.Contains(kase, "unspeclocal") {
+		// the unspecified address IS a configured local address: no connection's destination equals it
+		lo = "0.0.0.0"
+	}
 	p1 := e.addPeer(1, PeerOpts{LocalAS: localAS, RemoteAS: remoteAS, Hold: 90, Passive: true, LocalAddr: lo})
 	p2 := e.addPeer(2, PeerOpts{LocalAS: localAS, RemoteAS: remoteAS, Hold: 90, Passive: true})
 	if strings.HasSuffix(kase, "prequeued") {
@@ -1281,6 +1320,9 @@ func scenAdmission(e *Env, args []string, r *rand.Rand) {
 			c := probe(p1.addr.String(), dst, "wrongdst")
 			c.waitEnd(stepWait)
 		}
+	case strings.HasSuffix(kase, "unspec-dst"):
+		c := probe(p1.addr.String(), "127.0.0.1", "wrongdst")
+		c.waitEnd(stepWait)
 	case strings.HasSuffix(kase, "multi-wrong-dst"):
 		// handled before Serve (needs its own listeners)
 	case strings.HasSuffix(kase, "second-inbound"):
@@ -1681,7 +1723,7 @@ func init() {
 			"hold:out:l=3:r=3:pat=updsilent:ms=4800", "hold:in:l=6:r=3:pat=updsilent:ms=4800", "hold:out:l=3:r=3:pat=silent:st=openConfirm:ms=4500", "hold:in:l=3:r=9:pat=silent:st=openConfirm:ms=4500",
 			"hold:out:l=3:r=3:pat=slowupd:ms=5500", "hold:in:l=3:r=9:pat=slowupd:ms=5500", "hold:out:l=90:r=3:pat=ka:ms=3500", "hold:in:l=90:r=3:pat=silent:ms=4500",
 			"hold:out:l=30:r=3:r1=9:pat=ka:ms=3500", "hold:out:l=30:r=3:r1=9:pat=silent:ms=4500",
-			"hold:out:l=3:r=3:r1=0:pat=silent:ms=4500", "hold:out:l=30:r=0:r1=3:pat=ka:ms=3500", "hold:in:l=30:r=3:r1=9:pat=ka:ms=3500")
+			"hold:out:l=3:r=3:r1=0:pat=silent:ms=4500", "hold:in:l=3:r=3:pat=silent:ms=4500:linger=1300", "hold:out:l=3:r=3:pat=silent:ms=4500:linger=1300", "hold:out:l=30:r=0:r1=3:pat=ka:ms=3500", "hold:in:l=30:r=3:r1=9:pat=ka:ms=3500")
 		return out
 	}
 	scenarioLists["C07"] = func(tier string, r *rand.Rand) []string {
@@ -1770,6 +1812,9 @@ func init() {
 					out = append(out, fmt.Sprintf("shutdown:%s:request-window:dir=%s:st=%s", api, dir, st))
 				}
 				out = append(out, fmt.Sprintf("shutdown:%s:in-callback:dir=%s", api, dir))
+				out = append(out, fmt.Sprintf("shutdown:%s:in-callback-veto:dir=%s:st=openSent:at=60", api, dir),
+					fmt.Sprintf("shutdown:%s:in-callback-veto:dir=%s:st=established:at=60", api, dir),
+					fmt.Sprintf("shutdown:%s:in-callback-veto:dir=%s:st=established:at=110", api, dir))
 			}
 			for _, st := range []string{"openSent", "openConfirm", "established"} {
 				out = append(out, fmt.Sprintf("shutdown:%s:second-inbound:st=%s", api, st))
@@ -1800,6 +1845,8 @@ func init() {
 			"writers:out:k=3:n=30:end=cease:inside=1:re=1:ms=80:i=0", "writers:in:k=2:n=20:end=cease:inside=1:rhold=0:ms=100:i=0",
 			"damping:out:established:sent.badmarker:expire=1:ms=600", "state-msg:out:established:open:second=1", "hold:out:l=3:r=3:pat=writes:ms=1500",
 			"updates:in:n=30:veto=0:k=0", "inbound-resume:st=established",
+			// negotiated hold time 0, a few writes, the connection dropped by the remote, the same FSM dials again
+			"writers:out:k=1:n=5:end=fin:inside=0:rhold=0:re=1:ms=100:i=0", "writers:out:k=2:n=8:end=cease:inside=1:rhold=0:re=1:ms=100:i=1",
 		}
 	}
 	scenarioLists["C11"] = func(tier string, r *rand.Rand) []string {
@@ -1885,7 +1932,8 @@ func init() {
 			for _, k := range []string{"unknown-src", "known", "second-inbound", "while-established", "held-down"} {
 				out = append(out, fmt.Sprintf("admission:%s-%s", l, k))
 			}
-			out = append(out, fmt.Sprintf("admission:%s-local-known", l), fmt.Sprintf("admission:%s-local-wrong-dst", l))
+			out = append(out, fmt.Sprintf("admission:%s-local-known", l), fmt.Sprintf("admission:%s-local-wrong-dst", l),
+				fmt.Sprintf("admission:%s-unspeclocal-unspec-dst", l))
 			if l == "specific" {
 				out = append(out, "admission:specific-local-multi-wrong-dst")
 			}
@@ -1945,6 +1993,7 @@ func init() {
 		}
 		// connections that match no peer / the wrong local address, then the API is used again (nothing may be left locked)
 		out = append(out, "admission:specific-local-wrong-dst", "admission:wild-local-wrong-dst", "admission:specific-unknown-src")
+		out = append(out, "admission:specific-unspeclocal-unspec-dst", "admission:wild-unspeclocal-unspec-dst")
 		// negotiated hold time 0 with application writes (also from inside OnEstablished)
 		out = append(out, "writers:out:k=2:n=20:end=cease:inside=1:rhold=0:ms=100:i=0", "writers:in:k=1:n=5:end=close:inside=1:rhold=0:ms=100:i=0")
 		// API sequences around a failed listener: Serve again, Close
